@@ -47,7 +47,13 @@ def main():
         tree = os.path.join(d, 'repo')
         subprocess.run(['rsync', '-a', '--exclude', '.git', '--exclude', '__pycache__', '--exclude', '_seeded', REPO + '/', tree + '/'], check=True)
         env = dict(os.environ, PYTHONPATH=tree, OPENBLAS_NUM_THREADS='1')
-        demo = os.path.join(src, 'demo.py')
+        demo = os.path.join(d, 'demo_run.py')
+        with open(os.path.join(src, 'demo.py')) as fh:
+            text = fh.read()
+        # some demos assert that teneva is imported from the agent's own worktree: the evaluation runs them on a scratch copy instead
+        text = '\n'.join(('pass  # ' + l.strip() if ('teneva.__file__' in l and l.strip().startswith('assert')) else l) for l in text.split('\n'))
+        with open(demo, 'w') as fh:
+            fh.write(text)
         rc0, o0, e0 = run(['/venv/bin/python', demo], cwd=d, env=env, timeout=600)
         meta['demo_exit_unmodified'] = rc0
         base = tests(tree)
